@@ -56,6 +56,10 @@ def check_book(world, i, op, out):
                                     {"f": fname})
                 else:
                     world.violation("C07/I3", "identically-zero-combination-returns-a-non-zero-sample", {"f": fname})
+        # I6: after a query at x the function holds a sample *at x* (same decomposition, exactly): two points that
+        # differ, however little, are two points
+        if not zero_comb and not any(_key(world.den_point(t[0])) == xk for t in F.list_of_points):
+            world.violation("C07/I6", "query-did-not-record-a-sample-at-the-queried-point", {"f": fname, "x": xname})
         if v is not None:
             dv = world.den_expr(v)
             prev = st["returns_v"].get((fname, xk))
@@ -70,6 +74,26 @@ def check_book(world, i, op, out):
                                 {"f": fname, "x": xname})
             st["returns_g"].setdefault((fname, xk), dg)
         world.reach["book_queries"] += 1
+    # ---- I5: what a primitive step returns as "(sub)gradient of f at x" / "f evaluated at x" is a recorded sample of f
+    if out["status"] == "ok" and name == "step":
+        spec = {"proximal_step": [((0, 1, 2), "f")], "exact_linesearch_step": [((0, 1, 2), "f")],
+                "linear_optimization_step": [((0, 1, 2), "ind")], "bregman_gradient_step": [((0, 1, 2), "mirror_map")],
+                "bregman_proximal_step": [((0, 1, 2), "mirror_map"), ((0, 3, 4), "min_function")],
+                "inexact_proximal_step": [((0, 1, 2), "f"), ((3, 4, 5), "f")]}.get(op["kind"], [])
+        for (ix, ig, iv), arg in spec:
+            fh = (op.get("args") or {}).get(arg)
+            if not (isinstance(fh, str) and fh.startswith("@")) or fh[1:] not in world.h:
+                continue
+            F = world.h[fh[1:]]
+            try:
+                x, g, v = (world.h[op["out"][k]] for k in (ix, ig, iv))
+            except KeyError:
+                continue
+            if not any(t[0] is x and t[1] is g and t[2] is v for t in F.list_of_points):
+                world.violation("C07/I5", "step-returns-a-sample-that-the-function-did-not-record",
+                                {"step": op["kind"], "f": fh[1:], "which": [ix, ig, iv],
+                                 "opt": (op.get("args") or {}).get("opt")})
+        world.reach["book_steps"] += 1
     # ---- I0: a function is what it was built as: no later operation (`+=`, a query, a step) changes its terms
     snap = st.setdefault("decomp0", {})
     for n, F in funcs:
@@ -209,6 +233,19 @@ def check_partition_relations(world, rec):
     if not ctx.ok:
         return
     cap = rec.caps[0]
+    # block-smooth functions are constrained block by block: one condition per ordered pair of different samples
+    # and per block, whatever the samples are called
+    for fn in (rec.ledger_snapshot or {}).get("funcs", []):
+        F = world.allobj.get(fn)
+        part = getattr(F, "partition", None)
+        if F is None or part is None or type(F).__name__ != "BlockSmoothConvexFunction":
+            continue
+        n, d = len(F.list_of_points), part.get_nb_blocks()
+        ncons = sum(1 for r in rec.created if r["kind"] == "cons" and r["origin"] == "class" and r["owner"] is F)
+        if ncons != d * n * (n - 1):
+            world.violation("C15/blockwise", "block-smooth-function-is-not-constrained-for-every-pair-and-block",
+                            {"f": fn, "samples": n, "blocks": d, "conditions": ncons})
+        world.reach["blockwise_counted"] += 1
     delivered = [it for it in ctx.exp_cons if it["source"] == "partition"]
     dsig = []
     for it in delivered:
